@@ -37,15 +37,15 @@ PROPS = {
     },
     "C06": {
         "title": "Task runtime equals work over machine speed, at least one step",
-        "lean": ["TopsimProps.C06", "TopsimProofs.Bridge.Runtime"],
+        "lean": ["TopsimProps.C06", "TopsimProofs.Bridge.Runtime", "TopsimProps.C06Traj"],
         "streams": [("default", 20, 300), ("units", 10, 150), ("big", 4, 60)],
         "direct": ["c06"],
         "monitor": ["C06"],
     },
     "C07": {
         "title": "Buffer space is conserved and never over- or under-flows",
-        "lean": ["TopsimProps.C07", "TopsimProofs.Bridge.BufferArith", "TopsimProofs.Bridge.TierArith", "TopsimProofs.Bridge.Sched"],
-        "streams": [("default", 32, 500), ("sequential", 16, 200), ("overcommit", 8, 60), ("edge", 24, 400), ("hotwait", 8, 100)],
+        "lean": ["TopsimProps.C07", "TopsimProofs.Bridge.BufferArith", "TopsimProofs.Bridge.TierArith", "TopsimProofs.Bridge.Sched", "TopsimProofs.Bridge.Admission", "TopsimProps.C07Traj"],
+        "streams": [("default", 32, 500), ("sequential", 16, 200), ("overcommit", 8, 60), ("edge", 24, 400), ("hotwait", 8, 100), ("tiering", 8, 100), ("tierback", 8, 100)],
         "monitor": ["C07"],
     },
     "C08": {
@@ -56,7 +56,7 @@ PROPS = {
     },
     "C09": {
         "title": "Batch reservations are exclusive, bounded and released",
-        "lean": ["TopsimProps.C09", "TopsimProps.C02", "TopsimProofs.Bridge.Batch"],
+        "lean": ["TopsimProps.C09", "TopsimProps.C02", "TopsimProofs.Bridge.Batch", "TopsimProps.C09Traj"],
         "streams": [("batch", 40, 600), ("chaotic-batch", 16, 300), ("clusterops", 20, 400), ("big", 8, 100)],
         "monitor": ["C09"],
     },
@@ -76,7 +76,7 @@ PROPS = {
     },
     "C12": {
         "title": "The per-timestep table reports the true state, one row per step",
-        "lean": ["TopsimProps.C12", "TopsimProps.SysSafety", "TopsimProps.Pause"],
+        "lean": ["TopsimProps.C12", "TopsimProps.SysSafety", "TopsimProps.Pause", "TopsimProps.C12Traj"],
         "streams": [("default", 32, 500), ("overlap", 16, 300), ("runlevel", 16, 300), ("tierback", 12, 200), ("tiering", 8, 150), ("units", 6, 80), ("big", 4, 60)],
         "monitor": ["C12"],
     },
@@ -88,8 +88,8 @@ PROPS = {
     },
     "C14": {
         "title": "A generated plan is a faithful copy of the workflow graph",
-        "lean": ["TopsimProps.C14"],
-        "streams": [],
+        "lean": ["TopsimProps.C14", "TopsimProofs.Bridge.Plan"],
+        "streams": [("default", 12, 150), ("contended", 8, 100)],
         "direct": ["c14"],
         "monitor": ["C14"],
     },
@@ -109,14 +109,14 @@ PROPS = {
     },
     "C17": {
         "title": "Plan-following scheduling keeps every task on its planned machine",
-        "lean": ["TopsimProps.C17"],
+        "lean": ["TopsimProps.C17", "TopsimProps.C17Traj"],
         "streams": [("dynamic", 40, 600), ("chaotic-dynamic", 12, 200), ("big", 6, 80), ("dynamic-reuse", 12, 200)],
         "monitor": ["C17"],
     },
     "C18": {
         "title": "Moving an observation between buffer tiers conserves data",
-        "lean": ["TopsimProps.C18", "TopsimProofs.Bridge.BufferArith", "TopsimProofs.Bridge.TierArith"],
-        "streams": [],
+        "lean": ["TopsimProps.C18", "TopsimProofs.Bridge.BufferArith", "TopsimProofs.Bridge.TierArith", "TopsimProofs.Bridge.Admission", "TopsimProps.C07Traj"],
+        "streams": [("tiering", 10, 150), ("tierback", 10, 150)],
         "direct": ["c18"],
         "monitor": ["C18"],
     },
